@@ -60,7 +60,7 @@ def run(ctx):
     ctx.note("repository_frames", len(frames))
     kinds = {"CSBK/pre": "CSBK", "CSBK/other": "CSBK", "DH/C": "DataHeader", "DH/U": "DataHeader", "VLC": "VoiceLCHeader", "TLC": "TerminatorWithLC",
              "PI": "PIHeader", "R12/u": "Rate12Data", "R12/c": "Rate12Data", "R34/u": "Rate34Data"}
-    n = 500 if ctx.quick else 8000
+    n = 500 if ctx.quick else 30000
     for k in range(n):
         cc = k % 16
         r = rng.random()
